@@ -8,6 +8,16 @@ ids = [p["id"] for p in props]
 HOOK_COMMITS = ["332865e1b", "bf49db00e", "0b99e4fc0", "68bfb6d5a"]
 
 CHECKS = {
+ "C10": dict(
+   level="exploration", design="§4 C10",
+   technique="runtime monitoring: independent-writer oracle (files produced by vf/pqwrite.py, a from-the-spec Parquet writer sharing no code with the engine) over executions of read_parquet under varied batch sizes, partitions and adversarial read chunking (ChaosFs); metadata functions vs written footer",
+   text="~700 (quick) / 6000 (thorough) generated files cover physical type x logical annotation x encoding (PLAIN, dictionary incl. mid-chunk fallback, RLE, DELTA_BINARY_PACKED, DELTA_LENGTH_BYTE_ARRAY, DELTA_BYTE_ARRAY, BYTE_STREAM_SPLIT) x NULL pattern x page v1/v2 (compressed and uncompressed) x codec x page size x row-group layout x level/index run style; each is read several times under batch sizes 1-2048 (decoders resume mid-page/mid-run/mid-miniblock), 1/2/5 partitions and ChaosFs short reads / Pending; values are compared bit-exactly and in file order (partitions=1), announced types with the writer's, parquet.file/rowgroup/column_metadata with the footer written.",
+   note="Trusts vf/pqwrite.py (structurally self-checked against an independent thrift re-parse; written from the format specification). SNAPPY/LZ4_RAW/ZSTD streams are literal-only. Nested types are out of scope (engine: not implemented)."),
+ "C11": dict(
+   level="exploration", design="§4 C11",
+   technique="runtime monitoring: three-way oracle over executions (scan with projection/filter pushdown and row-group pruning vs the same query with the optimizer off vs the rows the independent writer encoded); execution_profile() as coverage monitor that pruning really happened; glob()/list scans vs per-file reads",
+   text="Files with truthful statistics in every layout (new, deprecated-only, both, none, inexact-wide, no exactness flags) on signed, unsigned, decimal, date, float, string and boolean columns with disjoint/overlapping/NULL-only/min=max row groups are queried with col = const (constant inside, outside, at min/max, of another literal type, NULL), range predicates, conjunctions, disjunctions and projections (subsets, reorderings, repeats, _rowid, count(*)); pushdown-on must equal pushdown-off and the writer's rows. Lists and globs over a real directory tree must return each matching file exactly once (vs glob() listing, UNION ALL and the writer's rows) for 1..#files+1 partitions.",
+   note="'**' glob semantics are undocumented: the engine's own glob() listing defines matching there (must stay within the zero-or-more-directories reading). Comparison semantics of mixed-type predicates (e.g. UBIGINT vs BIGINT literal compared as DOUBLE) belong to C05."),
  "C09": dict(
    level="exploration", design="§4 C09",
    technique="runtime monitoring: per-outer-row nested-evaluation oracle (reference interpreter on the generator's AST) for correlated subqueries; metamorphic oracle over CTE / MATERIALIZED CTE / VIEW / inlined forms of one inner query; recorded-deviation switches tied to semantic triggers",
